@@ -12,7 +12,7 @@
    error sets; it is not proved for all documents. *)
 From Coq Require Import ZArith List String Bool.
 From TV Require Import Py.Prelude Model.Schema Model.ImplInput Model.ImplExec Model.Envelope
-     Model.ImplValidate Model.SpecValidate Model.RunValidate Proofs.ValidateProofs Proofs.ValidateRules Proofs.ValidateValues Proofs.ValidateSites Proofs.ValidateWalk Proofs.ValidateTree Proofs.SingleRoot Proofs.ValidateSpreads
+     Model.ImplValidate Model.SpecValidate Model.RunValidate Proofs.ValidateProofs Proofs.ValidateRules Proofs.ValidateValues Proofs.ValidateSites Proofs.ValidateWalk Proofs.ValidateTree Proofs.SingleRoot Proofs.ValidateSpreads Proofs.ValidateScopes Proofs.ValidateVars Proofs.ValidatePure
      Gen.Wiring_gen Proofs.Wiring.
 Import ListNotations.
 Open Scope string_scope.
@@ -205,6 +205,60 @@ Proof.
   apply (possible_spreads_exact V doc) in Hq. destruct Hq as [_ H2]. rewrite (H2 scope n l p f Hin Hf) in Hno. discriminate.
 Qed.
 
+(* The three variable rules, EXACT (Proofs/ValidateVars.v).  An operation "sees" what is recorded in its own selection
+   tree and in every fragment reachable through spreads (`op_sees`: the engine's traversal has no visited set, it returns
+   exactly when it terminates and then membership is reachability); the records are a pure function of the document
+   (Proofs/ValidateScopes.v, `books_ctx`). *)
+Theorem C07_uses_defined_rule_exact st ops :
+  uses_defined_rule st ops = Some [] <->
+  forall o, In o ops ->
+    scope_collect st si_used o <> None /\
+    forall n l, op_sees st si_used o (n, l) -> exists vd, In vd (o_vars o) /\ v_name vd = n.
+Proof. exact (uses_defined_exact st ops). Qed.
+
+Theorem C07_variables_used_rule_exact st ops :
+  variables_used_rule st ops = Some [] <->
+  forall o, In o ops ->
+    scope_collect st si_used o <> None /\
+    forall vd, In vd (o_vars o) -> exists l, op_sees st si_used o (v_name vd, l).
+Proof. exact (variables_used_exact st ops). Qed.
+
+Theorem C07_usages_allowed_rule_exact V st ops :
+  usages_allowed_rule V st ops = Some [] <->
+  forall o, In o ops ->
+    scope_collect st si_args o <> None /\
+    forall u a vd, op_sees st si_args o u -> schema_argument V u = Some a ->
+                   find (fun vd0 => String.eqb (v_name vd0) (au_var u)) (o_vars o) = Some vd -> usage_ok a vd = true.
+Proof. exact (usages_allowed_exact V st ops). Qed.
+
+(* ... hence a document using an undeclared variable, declaring an unused one, or passing a variable where its type does
+   not fit -- in the operation itself, in a nested selection, in a directive argument or in a fragment reached through
+   any chain of spreads -- is not accepted *)
+Theorem C07_undeclared_variable_refused V
+  (Hin : forall n ifs f, vfind_type V n = Some (DInput ifs) -> In f ifs -> input_ty V (in_type f))
+  (Hfields : forall scope name f d, vfind_field V scope name = Some f -> In d (fd_args f) -> input_ty V (in_type d))
+  (Hdirs : forall n dd d, vfind_directive V n = Some dd -> In d (dd_args dd) -> input_ty V (in_type d)) doc o n l :
+  In o (operations doc) -> op_sees (books_ctx V doc) si_used o (n, l) ->
+  (forall vd, In vd (o_vars o) -> v_name vd <> n) -> accepted V doc = false.
+Proof. exact (undeclared_variable_refused V Hin Hfields Hdirs doc o n l). Qed.
+
+Theorem C07_unused_variable_refused V
+  (Hin : forall n ifs f, vfind_type V n = Some (DInput ifs) -> In f ifs -> input_ty V (in_type f))
+  (Hfields : forall scope name f d, vfind_field V scope name = Some f -> In d (fd_args f) -> input_ty V (in_type d))
+  (Hdirs : forall n dd d, vfind_directive V n = Some dd -> In d (dd_args dd) -> input_ty V (in_type d)) doc o vd :
+  In o (operations doc) -> In vd (o_vars o) ->
+  (forall l, ~ op_sees (books_ctx V doc) si_used o (v_name vd, l)) -> accepted V doc = false.
+Proof. exact (unused_variable_refused V Hin Hfields Hdirs doc o vd). Qed.
+
+Theorem C07_disallowed_variable_usage_refused V
+  (Hin : forall n ifs f, vfind_type V n = Some (DInput ifs) -> In f ifs -> input_ty V (in_type f))
+  (Hfields : forall scope name f d, vfind_field V scope name = Some f -> In d (fd_args f) -> input_ty V (in_type d))
+  (Hdirs : forall n dd d, vfind_directive V n = Some dd -> In d (dd_args dd) -> input_ty V (in_type d)) doc o u a vd :
+  In o (operations doc) -> op_sees (books_ctx V doc) si_args o u -> schema_argument V u = Some a ->
+  find (fun vd0 => String.eqb (v_name vd0) (au_var u)) (o_vars o) = Some vd -> usage_ok a vd = false ->
+  accepted V doc = false.
+Proof. exact (disallowed_usage_refused V Hin Hfields Hdirs doc o u a vd). Qed.
+
 Print Assumptions C07_source_invokes_every_supported_rule.
 Print Assumptions C07_cycle_rule_exact.
 Print Assumptions C07_fragment_cycle_refuses.
@@ -231,3 +285,9 @@ Print Assumptions C07_two_root_keys_refused.
 Print Assumptions C07_possible_spreads_rule_exact.
 Print Assumptions C07_impossible_inline_fragment_refused.
 Print Assumptions C07_impossible_fragment_spread_refused.
+Print Assumptions C07_uses_defined_rule_exact.
+Print Assumptions C07_variables_used_rule_exact.
+Print Assumptions C07_usages_allowed_rule_exact.
+Print Assumptions C07_undeclared_variable_refused.
+Print Assumptions C07_unused_variable_refused.
+Print Assumptions C07_disallowed_variable_usage_refused.
